@@ -1481,6 +1481,10 @@ func c16One(run *Run, caseSeed int64, emit bool) c16Input {
 		for i := range maps {
 			cfg := genCfg{maxDepth: 1 + r.Intn(2), maxFan: 1 + r.Intn(3), emptyLists: true}
 			maps[i] = r.c16Retag(r.genMap(cfg, 0), o).(map[string]interface{})
+			if r.chance(0.12) {
+				maps[i] = map[string]interface{}{} // an empty Map is a document too (<doc/>, {}); seed C16-8
+				continue
+			}
 			if r.chance(0.5) {
 				maps[i]["s"] = r.pick([]string{"a<b", "R&D", "x>y", "<&>"})
 			}
